@@ -206,6 +206,10 @@ impl Property for C07 {
     fn watchdog_s(&self) -> u64 {
         300
     }
+    fn deadlock_is_violation(&self) -> bool {
+        // "the call always terminates" is part of the statement
+        true
+    }
     fn rule(&self) -> &'static str {
         "case = (row of a 20-row table of (key type in usize/u64/u8/String/str, value word u8..usize, backend Box<[W]>/BitFieldVec<W>, signature 64/128 bits, one of the 5 shard/edge logics), n, key style (dense/strided/permuted, prefix families, unicode), value kind (identity, all zero, all ones, uniform b-bit, one outlier), configuration (offline, low_mem, threads in 1..16, eps, log2_buckets, seed, expected_num_keys absent/exact/half/double/zero/another sharding regime, check_dups), optionally a second configuration) decoded from bytes; plus the enumeration of every n in 0..=130 on every table row with the default configuration; plus sizes around the 100k/200k/400k/800k/1.7M regime switches. Keys come from a harness lender that counts passes and fails its 65th rewind (deterministic termination bound). Oracle = the input pairs: Ok, len()==n, get(k_i)==v_i for all i, get_unaligned where the width is admissible, agreement between configurations. Non-trivial: n>=1; distinct = distinct hash of the decoded spec."
     }
